@@ -137,6 +137,8 @@ def cases(tier):
     for st in steplists3[:2]:
         cs.append(with_steps(F.fan3trunk([F.TOK["L"]], [], [], end=8), st))
         cs.append(with_steps(F.fan3trunk([F.TOK["S"], F.TOK["P1"]], [], [F.TOK["S"]], end=8), st))
+        cs.append(with_steps(F.fan3trunk([F.TOK["L"], F.TOK["S"], F.TOK["S"]], [], [], end=8), st))
+        cs.append(with_steps(F.fan3trunk([F.TOK["P1"], F.TOK["S"], F.TOK["S"]], [], [F.TOK["S"]], end=8), st))
     for trunk in ([F.TOK["S"]], [F.TOK["S"], F.TOK["S"]]):
         for c1 in F.chains(["L", "F1", "S"], 1):
             for c2 in F.chains(["L", "F1"], 1):
